@@ -39,3 +39,18 @@ Theorem C06_optimize_slicer_sound : forall c n all_full is_slowest stride (h : h
   read_post_ok n (axis_sel n c) rd ps.
 Proof. exact optimize_slicer_sound. Qed.
 Print Assumptions C06_optimize_slicer_sound.
+
+(* slicers2segments, any rank, any item size and offset: the bytes covered by the segments, in
+   the order they are read, are exactly the itemsize-byte blocks of the elements selected by
+   the read slicers, enumerated in Fortran order (first axis fastest) *)
+Theorem C06_segments_are_F_order : forall rd shape off w segs,
+  reads_valid shape rd -> 0 <= w ->
+  slicers2segments rd shape off w = Ok segs ->
+  positions segs = flat_map (fun d => pos1 (off + d, w)) (offs shape rd w).
+Proof. exact segments_are_F_order. Qed.
+Print Assumptions C06_segments_are_F_order.
+
+Theorem C06_segments_total : forall rd shape off w, reads_valid shape rd ->
+  exists segs, slicers2segments rd shape off w = Ok segs.
+Proof. exact slicers2segments_total. Qed.
+Print Assumptions C06_segments_total.
